@@ -134,11 +134,19 @@ def calculate_parts_contract(h):
         # the low byte for a fixed input byte pair, so some pair always exists)
         want = 0x0000 if shape.startswith("0x0000") else 0xFFFF
         base = bytes(b1)
-        for v in range(65536):
-            cand = base + bytes([v >> 8, v & 0xFF])
-            if crc_spec.crc16_modbus(cand) == want:
-                b1 = cand
+        T = [crc_spec.byte_step(i, 0) for i in range(256)]  # table of the *reference* (byte_step(c, v) = (c >> 8) ^ T[(c ^ v) & 0xFF])
+        c0 = crc_spec.crc16_modbus(base)
+        found = None
+        for v1 in range(256):
+            c1 = (c0 >> 8) ^ T[(c0 ^ v1) & 0xFF]
+            for v2 in range(256):
+                if (c1 >> 8) ^ T[(c1 ^ v2) & 0xFF] == want:
+                    found = bytes([v1, v2])
+                    break
+            if found:
                 break
+        if found and crc_spec.crc16_modbus(base + found) == want:
+            b1 = base + found
     if h.symbolic:
         install_crc_loop_contract(h)
     r = h.method(calc, "calculate", (b1, b2))
